@@ -5,61 +5,250 @@
   structurally recursive on fuel, so both terminate on every input by construction (Lean
   accepts only total definitions; there is no `partial` in Model/Reader.lean).  What remains
   to prove is that, for every text,
-    * the fuel the reader gives itself (2·tokens + 2) is never exhausted   (`fuel_suffices`),
     * no `unwrap()` site of the parser is reachable                          (`no_panic`),
+    * the fuel the reader gives itself (2·tokens + 2) is never exhausted     (`fuel_suffices`),
+    * `eof` never escapes to the top level,
   hence reading yields a program or a parse error, nothing else       (`reader_classification`).
+  Also: the tokenizer emits at most one token per character (`tokens_bounded`), and its
+  (line, col) is always "1 + newlines consumed, 1 + characters since the last newline"
+  (`tokenizer_position`, `advPos_line_col`; this part also serves C16).
+
+  Helper lemmas (the joint fuel/consumption invariant `Post`, the amortised token count `wt`)
+  are in Proofs/C08.lean.
 -/
-import Tulisp.Model.Reader
+import Tulisp.Proofs.C08
 namespace Tulisp.C08
 open Tulisp
 
-/-- a result that is neither `eof` -/
-def NotEof {α} : PRes α → Prop
-  | .eof => False
-  | _ => True
+/-! ## 1. No `unwrap()` panics -/
 
-def NotPanic {α} : PRes α → Prop
-  | .panic _ => False
-  | _ => True
-
-def NotFuel {α} : PRes α → Prop
-  | .fuel => False
-  | _ => True
+/-- `parse_value` answers `eof` only when no token is left (so the `unwrap()` in `parse_list`,
+    reached only after a successful `peek`, cannot fail). -/
+theorem parseValue_eof_only_at_end (fuel : Nat) (st : PState)
+    (h : (parseValue fuel st).1 = .eof) : st.toks = [] := by
+  have hp := pv_all fuel st
+  rcases hr : parseValue fuel st with ⟨r, st'⟩
+  rw [hr] at hp h
+  cases r <;> simp only [reduceCtorEq] at h
+  exact hp.1
 
 /-- `wrap` never answers `eof` (it turns it into "Unexpected EOF"). -/
 theorem wrap_not_eof (fuel : Nat) (sp : Span) (mk : Sx → Sx) (st : PState) :
-    NotEof (wrap fuel sp mk st).1 := by
-  cases fuel with
-  | zero => simp [wrap, NotEof]
-  | succ f =>
-    unfold wrap
-    split <;> simp [NotEof]
+    (wrap fuel sp mk st).1 ≠ .eof := by
+  have hp := pw_all fuel sp mk st
+  rcases hr : wrap fuel sp mk st with ⟨r, st'⟩
+  rw [hr] at hp
+  cases r <;> simp only [ne_eq, reduceCtorEq, not_false_eq_true]
+  exact hp.1.elim
 
-/-- the list loop never answers `eof` -/
-theorem parseListItems_not_eof (fuel : Nat) : ∀ (start : Span) (acc : List Sx) (st : PState),
-    NotEof (parseListItems fuel start acc st).1 := by
-  induction fuel with
-  | zero => intro start acc st; simp [parseListItems, NotEof]
-  | succ f ih =>
-    intro start acc st
-    unfold parseListItems
-    repeat' split
-    all_goals first | exact ih _ _ _ | simp [NotEof]
+/-- The list loop never answers `eof`. -/
+theorem parseListItems_not_eof (fuel : Nat) (start : Span) (acc : List Sx) (st : PState) :
+    (parseListItems fuel start acc st).1 ≠ .eof := by
+  have hp := pl_all fuel start acc st
+  rcases hr : parseListItems fuel start acc st with ⟨r, st'⟩
+  rw [hr] at hp
+  cases r <;> simp only [ne_eq, reduceCtorEq, not_false_eq_true]
+  exact hp.1.elim
 
-/-- `parse_value` answers `eof` only when no token is left: the `unwrap()` in `parse_list`,
-    which is reached only after a successful `peek`, cannot fail. -/
-theorem parseValue_no_eof_of_tokens (fuel : Nat) (st : PState) (tk : Token) (rest : List Token)
-    (h : st.toks = tk :: rest) : NotEof (parseValue fuel st).1 := by
-  cases fuel with
-  | zero => simp [parseValue, NotEof]
-  | succ f =>
-    unfold parseValue
-    rw [h]
-    simp only
-    split
-    · exact parseListItems_not_eof _ _ _ _
-    all_goals first
-      | exact wrap_not_eof _ _ _ _
-      | simp [NotEof]
+/-- None of the parser functions ever reaches an `unwrap()` of an absent value,
+    whatever the fuel and the parser state. -/
+theorem no_panic (fuel : Nat) (st : PState) (site : String) :
+    (parseValue fuel st).1 ≠ .panic site ∧
+    (∀ sp mk, (wrap fuel sp mk st).1 ≠ .panic site) ∧
+    (∀ start acc, (parseListItems fuel start acc st).1 ≠ .panic site) ∧
+    (∀ acc, (parseAll fuel acc st).1 ≠ .panic site) := by
+  refine ⟨?_, ?_, ?_, ?_⟩
+  · have hp := pv_all fuel st
+    rcases hr : parseValue fuel st with ⟨r, st'⟩
+    rw [hr] at hp
+    cases r <;> simp only [ne_eq, reduceCtorEq, not_false_eq_true]
+    exact hp.elim
+  · intro sp mk
+    have hp := pw_all fuel sp mk st
+    rcases hr : wrap fuel sp mk st with ⟨r, st'⟩
+    rw [hr] at hp
+    cases r <;> simp only [ne_eq, reduceCtorEq, not_false_eq_true]
+    exact hp.elim
+  · intro start acc
+    have hp := pl_all fuel start acc st
+    rcases hr : parseListItems fuel start acc st with ⟨r, st'⟩
+    rw [hr] at hp
+    cases r <;> simp only [ne_eq, reduceCtorEq, not_false_eq_true]
+    exact hp.elim
+  · intro acc
+    have hp := pa_all fuel acc st
+    rcases hr : parseAll fuel acc st with ⟨r, st'⟩
+    rw [hr] at hp
+    cases r <;> simp only [ne_eq, reduceCtorEq, not_false_eq_true]
+    exact hp.elim
+
+/-! ## 2. The reader's own fuel always suffices -/
+
+/-- Fuel `2 * (tokens left) + 1` is enough for `parse_value`, whatever the state. -/
+theorem parseValue_fuel (fuel : Nat) (st : PState) (h : 2 * st.toks.length + 1 ≤ fuel) :
+    (parseValue fuel st).1 ≠ .fuel := by
+  have hp := pv_all fuel st
+  rcases hr : parseValue fuel st with ⟨r, st'⟩
+  rw [hr] at hp
+  cases r <;> simp only [ne_eq, reduceCtorEq, not_false_eq_true]
+  have := hp.1
+  omega
+
+/-- Fuel `2 * (tokens left) + 2` is enough for the top-level loop, whatever the state. -/
+theorem parseAll_fuel (fuel : Nat) (acc : List Sx) (st : PState)
+    (h : 2 * st.toks.length + 2 ≤ fuel) : (parseAll fuel acc st).1 ≠ .fuel := by
+  have hp := pa_all fuel acc st
+  rcases hr : parseAll fuel acc st with ⟨r, st'⟩
+  rw [hr] at hp
+  cases r <;> simp only [ne_eq, reduceCtorEq, not_false_eq_true]
+  simp only [PostAll] at hp
+  omega
+
+/-- The fuel `readText` gives the parser is never exhausted. -/
+theorem fuel_suffices (toks : List Token) :
+    (parseAll (2 * toks.length + 2) [] { toks := toks }).1 ≠ .fuel :=
+  parseAll_fuel _ _ _ (Nat.le_refl _)
+
+/-- The top-level loop never answers `eof`. -/
+theorem parseAll_not_eof (fuel : Nat) (acc : List Sx) (st : PState) :
+    (parseAll fuel acc st).1 ≠ .eof := by
+  have hp := pa_all fuel acc st
+  rcases hr : parseAll fuel acc st with ⟨r, st'⟩
+  rw [hr] at hp
+  cases r <;> simp only [ne_eq, reduceCtorEq, not_false_eq_true]
+  exact hp.elim
+
+/-! ## 3. Classification -/
+
+theorem parseTokens_classification (toks : List Token) :
+    (∃ forms, (parseTokens toks).res = .ok forms) ∨ (∃ e, (parseTokens toks).res = .err e) := by
+  have h1 := fuel_suffices toks
+  have h2 := parseAll_not_eof (2 * toks.length + 2) [] { toks := toks }
+  have h3 := fun site => (no_panic (2 * toks.length + 2) { toks := toks } site).2.2.2 []
+  unfold parseTokens
+  rcases hr : parseAll (2 * toks.length + 2) [] { toks := toks } with ⟨r, st'⟩
+  rw [hr] at h1 h2 h3
+  cases r with
+  | ok forms => exact Or.inl ⟨forms, rfl⟩
+  | err e => exact Or.inr ⟨e, rfl⟩
+  | eof => exact (h2 rfl).elim
+  | panic site => exact (h3 site rfl).elim
+  | fuel => exact (h1 rfl).elim
+
+/-- C08: for every text, the reader yields a program or a parse error — never a panic,
+    never fuel exhaustion, never a stray `eof`. -/
+theorem reader_classification (file : Nat) (cs : List Char) :
+    (∃ forms, (readText file cs).res = .ok forms) ∨ (∃ e, (readText file cs).res = .err e) :=
+  parseTokens_classification (tokenize file cs)
+
+/-! ## 4. The tokenizer emits at most one token per character -/
+
+/-- Tight bound: a text of `n` characters yields at most `n` tokens (a step can emit two tokens,
+    e.g. `a)` at the `)`, but then an earlier character emitted none). -/
+theorem tokens_bounded (file : Nat) (cs : List Char) : (tokenize file cs).length ≤ cs.length := by
+  unfold tokenize tokenizeFrom
+  have h1 := tfinish_length (cs.foldl tstep { file := file })
+  have h2 := foldl_tstep_wt cs { file := file }
+  have h3 : wt { file := file } = 0 := rfl
+  omega
+
+/-- The bound in the form asked for. -/
+theorem tokens_bounded' (file : Nat) (cs : List Char) :
+    (tokenize file cs).length ≤ cs.length + 1 :=
+  Nat.le_succ_of_le (tokens_bounded file cs)
+
+/-- Hence the fuel of `readText` is at most `2 * cs.length + 2`. -/
+theorem reader_fuel_bounded (file : Nat) (cs : List Char) :
+    2 * (tokenize file cs).length + 2 ≤ 2 * cs.length + 2 := by
+  have := tokens_bounded file cs
+  omega
+
+/-! ## 5. Position invariant (also for C16) -/
+
+/-- After consuming any prefix `cs` of a text, the tokenizer's position is `advPos` folded over
+    the characters consumed — for every character, ASCII or not, in every mode. -/
+theorem tokenizer_position (f : Nat) (cs : List Char) :
+    let s := cs.foldl tstep { file := f }
+    (⟨s.line, s.col⟩ : Pos) = cs.foldl advPos ⟨1, 1⟩ :=
+  foldl_tstep_pos cs { file := f }
+
+theorem takeWhile_of_all {α} (p : α → Bool) (l : List α) (h : l.all p = true) :
+    l.takeWhile p = l := by
+  induction l with
+  | nil => rfl
+  | cons a l ih =>
+    simp only [List.all_cons, Bool.and_eq_true] at h
+    simp [h.1, ih h.2]
+
+/-- Closed form of the position: line = 1 + number of newlines, column = 1 + number of
+    characters after the last newline. -/
+theorem advPos_line_col (cs : List Char) :
+    (cs.foldl advPos ⟨1, 1⟩).line = 1 + cs.count '\n' ∧
+    (cs.foldl advPos ⟨1, 1⟩).col = 1 + (cs.reverse.takeWhile (· ≠ '\n')).length := by
+  refine ⟨foldl_advPos_line cs ⟨1, 1⟩, ?_⟩
+  have h := foldl_advPos_col_rev cs.reverse ⟨1, 1⟩
+  rw [List.reverse_reverse] at h
+  rw [h]
+  split
+  next hall => rw [takeWhile_of_all _ _ hall]
+  next => rfl
+
+/-- The two combined: the tokenizer's line and column after any prefix of the text. -/
+theorem tokenizer_line_col (f : Nat) (cs : List Char) :
+    (cs.foldl tstep { file := f }).line = 1 + cs.count '\n' ∧
+    (cs.foldl tstep { file := f }).col = 1 + (cs.reverse.takeWhile (· ≠ '\n')).length := by
+  have h := tokenizer_position f cs
+  have h2 := advPos_line_col cs
+  simp only at h
+  rw [← h] at h2
+  exact h2
+
+/-! ## 6. Sanity / non-vacuity (all by kernel evaluation; texts as explicit character lists
+      because string literals do not kernel-reduce) -/
+
+def isDotted : PRes (List Sx) → Bool
+  | .ok [.list _ [.ident _ _] (some (.ident _ _))] => true
+  | _ => false
+def isErr : PRes (List Sx) → Bool
+  | .err _ => true
+  | _ => false
+def isOneIdent : PRes (List Sx) → Bool
+  | .ok [.ident _ _] => true
+  | _ => false
+def isFuel : PRes (List Sx) → Bool
+  | .fuel => true
+  | _ => false
+
+/-- `(a . b)` reads as one list with one item and a dotted tail … -/
+example : isDotted (readText 0 ['(', 'a', ' ', '.', ' ', 'b', ')']).res = true := by decide
+/-- … with these spans. -/
+example : ∃ a b, (readText 0 ['(', 'a', ' ', '.', ' ', 'b', ')']).res =
+    .ok [.list ⟨0, ⟨1, 1⟩, ⟨1, 8⟩⟩ [.ident ⟨0, ⟨1, 2⟩, ⟨1, 3⟩⟩ a]
+          (some (.ident ⟨0, ⟨1, 6⟩, ⟨1, 7⟩⟩ b))] := ⟨_, _, rfl⟩
+/-- `(a .` is a parse error (Unexpected EOF at the dot), not a panic. -/
+example : isErr (readText 0 ['(', 'a', ' ', '.']).res = true := by decide
+example : (readText 0 ['(', 'a', ' ', '.']).res =
+    .err (.unexpectedEof ⟨0, ⟨1, 4⟩, ⟨1, 5⟩⟩) := by rfl
+/-- `-.` reads as an identifier. -/
+example : isOneIdent (readText 0 ['-', '.']).res = true := by decide
+/-- `)` alone and `(` alone are errors. -/
+example : (readText 0 [')']).res = .err (.unexpectedClose ⟨0, ⟨1, 1⟩, ⟨1, 2⟩⟩) := by rfl
+example : (readText 0 ['(']).res = .err (.unclosedList ⟨0, ⟨1, 1⟩, ⟨1, 2⟩⟩) := by rfl
+/-- the empty text is the empty program -/
+example : (readText 0 []).res = .ok [] := by rfl
+/-- `fuel` is a reachable outcome of the parser with too little fuel, so `fuel_suffices`
+    says something: one token, fuel 1. -/
+example : isFuel (parseAll 1 [] { toks := tokenize 0 ['a'] }).1 = true := by decide
+/-- hypothesis of `parseValue_eof_only_at_end` is satisfiable -/
+example : (parseValue 1 { toks := [] }).1 = .eof := by rfl
+/-- hypothesis of `parseValue_fuel` / `parseAll_fuel` is satisfiable with a non-empty state -/
+example : 2 * ({ toks := tokenize 0 ['(', 'a', ')'] } : PState).toks.length + 2 ≤ 8 := by decide
+/-- `tokens_bounded` is tight: one token per character, and one step may emit two tokens. -/
+example : (tokenize 0 ['(', ')']).length = 2 := by decide
+example : (['a'].foldl tstep { file := 0 }).out.length = 0 ∧
+          (['a', ')'].foldl tstep { file := 0 }).out.length = 2 := by decide
+/-- positions with a newline and a non-ASCII character: after `a⏎λb` we are at line 2, col 3 -/
+example : (['a', '\n', 'λ', 'b'].foldl tstep { file := 0 }).here = ⟨2, 3⟩ := by decide
+example : ['a', '\n', 'λ', 'b'].foldl advPos ⟨1, 1⟩ = ⟨2, 3⟩ := by decide
 
 end Tulisp.C08
